@@ -1,3 +1,164 @@
-//! placeholder, filled in below
+//! C18 — initial-position helpers.  Real code: `core::{init, init_det, init_with_seed, _init}`.
+//! Symbolic: the seed (all of u64) and OS entropy; sizes are concrete per harness (symbolic
+//! sizes do not finish).  `ziggurat` and `seed_from_u64` are stubbed (see env.rs).
+
+use crate::env;
 use crate::Src;
-pub fn by_name(_name: &str) -> Option<fn(&mut Src)> { None }
+use crate::{chk, cov};
+use mini_mcmc::core::{init, init_det, init_with_seed};
+
+fn same_f64(a: &Vec<Vec<f64>>, b: &Vec<Vec<f64>>, rows: usize) -> bool {
+    if a.len() < rows || b.len() < rows {
+        return false;
+    }
+    let mut i = 0;
+    while i < rows {
+        if a[i].len() != b[i].len() {
+            return false;
+        }
+        let mut j = 0;
+        while j < a[i].len() {
+            if a[i][j].to_bits() != b[i][j].to_bits() {
+                return false;
+            }
+            j += 1;
+        }
+        i += 1;
+    }
+    true
+}
+fn same_f32(a: &Vec<Vec<f32>>, b: &Vec<Vec<f32>>, rows: usize) -> bool {
+    if a.len() < rows || b.len() < rows {
+        return false;
+    }
+    let mut i = 0;
+    while i < rows {
+        if a[i].len() != b[i].len() {
+            return false;
+        }
+        let mut j = 0;
+        while j < a[i].len() {
+            if a[i][j].to_bits() != b[i][j].to_bits() {
+                return false;
+            }
+            j += 1;
+        }
+        i += 1;
+    }
+    true
+}
+
+macro_rules! c18_seeded {
+    ($name:ident, $F:ty, $same:ident, $n1:expr, $n2:expr, $d:expr) => {
+        pub fn $name(src: &mut Src) {
+            let seed = src.u64();
+            unsafe {
+                env::ENTROPY_FORBIDDEN = true;
+                env::ENTROPY_FORBIDDEN_HIT = false;
+            }
+            let a: Vec<Vec<$F>> = init_with_seed($n1, $d, seed);
+            let b: Vec<Vec<$F>> = init_with_seed($n2, $d, seed);
+            let a2: Vec<Vec<$F>> = init_with_seed($n1, $d, seed);
+            chk!(src, a.len() == $n1 && b.len() == $n2, "init_with_seed returns exactly n vectors");
+            let mut ok = true;
+            let mut fin = true;
+            let mut i = 0;
+            while i < b.len() {
+                if b[i].len() != $d {
+                    ok = false;
+                }
+                let mut j = 0;
+                while j < b[i].len() {
+                    if !b[i][j].is_finite() {
+                        fin = false;
+                    }
+                    j += 1;
+                }
+                i += 1;
+            }
+            chk!(src, ok, "every vector has length d");
+            chk!(src, fin, "entries are finite");
+            chk!(src, $same(&a, &a2, $n1), "init_with_seed is a pure function of its arguments");
+            chk!(src, $same(&a, &b, $n1), "the first rows of a larger request equal the smaller request");
+            unsafe {
+                chk!(src, !env::ENTROPY_FORBIDDEN_HIT, "the seeded initialiser never asks the OS for entropy");
+                env::ENTROPY_FORBIDDEN = false;
+            }
+            cov!(src, seed == u64::MAX, "largest seed");
+            cov!(src, true, "end reached");
+        }
+    };
+}
+c18_seeded!(c18_seeded_f64_1_2x2, f64, same_f64, 1, 2, 2);
+c18_seeded!(c18_seeded_f32_1_2x2, f32, same_f32, 1, 2, 2);
+c18_seeded!(c18_seeded_f64_2_3x1, f64, same_f64, 2, 3, 1);
+c18_seeded!(c18_seeded_f64_2_3x3, f64, same_f64, 2, 3, 3);
+c18_seeded!(c18_seeded_f32_0_1x2, f32, same_f32, 0, 1, 2);
+
+macro_rules! c18_det {
+    ($name:ident, $F:ty, $same:ident, $n:expr, $d:expr) => {
+        pub fn $name(src: &mut Src) {
+            unsafe {
+                env::ENTROPY_FORBIDDEN = true;
+                env::ENTROPY_FORBIDDEN_HIT = false;
+            }
+            let a: Vec<Vec<$F>> = init_det($n, $d);
+            let b: Vec<Vec<$F>> = init_with_seed($n, $d, 42);
+            chk!(src, a.len() == $n, "init_det returns exactly n vectors");
+            chk!(src, $same(&a, &b, $n), "init_det equals init_with_seed with seed 42");
+            unsafe {
+                chk!(src, !env::ENTROPY_FORBIDDEN_HIT, "the seeded initialiser never asks the OS for entropy");
+                env::ENTROPY_FORBIDDEN = false;
+            }
+            cov!(src, true, "end reached");
+        }
+    };
+}
+c18_det!(c18_det_f64_2x2, f64, same_f64, 2, 2);
+c18_det!(c18_det_f32_2x2, f32, same_f32, 2, 2);
+
+macro_rules! c18_unseeded {
+    ($name:ident, $F:ty, $n:expr, $d:expr) => {
+        pub fn $name(src: &mut Src) {
+            env::set_entropy(src, 4);
+            let a: Vec<Vec<$F>> = init($n, $d);
+            chk!(src, a.len() == $n, "init returns exactly n vectors");
+            let mut ok = true;
+            let mut fin = true;
+            let mut i = 0;
+            while i < a.len() {
+                if a[i].len() != $d {
+                    ok = false;
+                }
+                let mut j = 0;
+                while j < a[i].len() {
+                    if !a[i][j].is_finite() {
+                        fin = false;
+                    }
+                    j += 1;
+                }
+                i += 1;
+            }
+            chk!(src, ok, "every vector has length d");
+            chk!(src, fin, "entries are finite");
+            cov!(src, true, "end reached");
+        }
+    };
+}
+c18_unseeded!(c18_unseeded_f64_2x2, f64, 2, 2);
+c18_unseeded!(c18_unseeded_f32_3x1, f32, 3, 1);
+
+pub fn by_name(name: &str) -> Option<fn(&mut Src)> {
+    Some(match name {
+        "c18_seeded_f64_1_2x2" => c18_seeded_f64_1_2x2,
+        "c18_seeded_f32_1_2x2" => c18_seeded_f32_1_2x2,
+        "c18_seeded_f64_2_3x1" => c18_seeded_f64_2_3x1,
+        "c18_seeded_f64_2_3x3" => c18_seeded_f64_2_3x3,
+        "c18_seeded_f32_0_1x2" => c18_seeded_f32_0_1x2,
+        "c18_det_f64_2x2" => c18_det_f64_2x2,
+        "c18_det_f32_2x2" => c18_det_f32_2x2,
+        "c18_unseeded_f64_2x2" => c18_unseeded_f64_2x2,
+        "c18_unseeded_f32_3x1" => c18_unseeded_f32_3x1,
+        _ => return None,
+    })
+}
